@@ -24,7 +24,7 @@ def demo(tag):
     if r.returncode != 0:
         print("demo does not compile (%s):\n%s" % (tag, r.stdout[-1500:]))
         return None
-    r = sh(exe, timeout=600)
+    r = sh(exe, timeout=600, cwd=d, env=dict(os.environ, MANIF_ROOT=REPO))
     os.remove(exe)
     print("demo on %s tree: exit %d" % (tag, r.returncode))
     return r.returncode
